@@ -29,6 +29,17 @@ type Exec struct {
 	Inits    int
 	Mempool  [][]byte
 	GetTxErr bool
+	// MaxBytes is what InitChain / ExecuteTxs report as "maximum bytes of the next block" (0 = 3 bytes: smaller than
+	// almost every batch of the streams, so that code which starts to cut batches by it cannot go unnoticed; the
+	// repository ignores the value today)
+	MaxBytes uint64
+}
+
+func (e *Exec) maxBytes() uint64 {
+	if e.MaxBytes == 0 {
+		return 3
+	}
+	return e.MaxBytes
 }
 
 var GenesisRoot = []byte("genesis-root")
@@ -46,7 +57,7 @@ func (e *Exec) InitChain(context.Context, time.Time, uint64, string) ([]byte, ui
 	e.mu.Lock()
 	defer e.mu.Unlock()
 	e.Inits++
-	return append([]byte(nil), GenesisRoot...), 1 << 20, nil
+	return append([]byte(nil), GenesisRoot...), e.maxBytes(), nil
 }
 func (e *Exec) GetTxs(context.Context) ([][]byte, error) {
 	e.mu.Lock()
@@ -68,7 +79,7 @@ func (e *Exec) ExecuteTxs(_ context.Context, txs [][]byte, h uint64, ts time.Tim
 		cp[i] = append([]byte(nil), txs[i]...)
 	}
 	e.Calls = append(e.Calls, ExecCall{Height: h, Txs: cp, Prev: append([]byte(nil), prev...), Root: root, Time: ts})
-	return root, 1 << 20, nil
+	return root, e.maxBytes(), nil
 }
 func (e *Exec) SetFinal(_ context.Context, h uint64) error {
 	e.mu.Lock()
